@@ -41,7 +41,9 @@ def main():
         meta["checks"] = {}
         for c in checks:
             t0 = time.time()
-            env = dict(os.environ, VF_REPO=wt)
+            evd = wt + "_evidence"
+            os.makedirs(evd, exist_ok=True)
+            env = dict(os.environ, VF_REPO=wt, VF_EVIDENCE_DIR=evd)
             r = subprocess.run(["/verif/bin/check", c, "--tier", "quick"], capture_output=True, text=True, env=env)
             lines = [l for l in r.stdout.splitlines() if l.startswith(("VIOLATION", "SUMMARY", "KNOWN", "INCONCLUSIVE", "INTERNAL"))]
             meta["checks"][c] = dict(exit=r.returncode, wall_s=round(time.time() - t0, 1),
@@ -59,6 +61,7 @@ def main():
                 shutil.copy(os.path.join(src, f), os.path.join(out, f))
         json.dump(meta, open(os.path.join(out, "meta.json"), "w"), indent=1)
         sh(f"git -C /repo worktree remove --force {wt}")
+        shutil.rmtree(wt + "_evidence", ignore_errors=True)
         print(json.dumps({k: meta.get(k) for k in ("property", "name", "confirmed", "detected_by")}))
         for c, v in meta.get("checks", {}).items():
             print(" ", c, "exit", v["exit"], v["summary"], v["what"][:2], v["other"][:2])
